@@ -150,8 +150,8 @@ type ledger struct{ Deposited, Paid, Fees, Refunded *big.Int }
 
 type monC10 struct {
 	BaseMonitor
-	pre    sheet
-	ledger map[string]*ledger
+	pre     sheet
+	ledger  map[string]*ledger
 	govSeen int
 }
 
@@ -306,7 +306,7 @@ func (m *monC11) BeforeTx(w *World, tx *TxCtx) {
 
 func claimResponse(w *World, r abci.ResponseDeliverTx) *streamtypes.MsgClaimStreamResponse {
 	var d sdk.TxMsgData
-	if err := w.Ref.App.AppCodec().Unmarshal(r.Data, &d); err != nil || len(d.MsgResponses) != 1 {
+	if err := w.Ref.App.AppCodec().Unmarshal(r.Data, &d); err != nil || len(d.MsgResponses) != 1 || !strings.HasSuffix(d.MsgResponses[0].TypeUrl, "MsgClaimStreamResponse") {
 		return nil
 	}
 	var resp streamtypes.MsgClaimStreamResponse
@@ -365,7 +365,7 @@ func (m *monC11) AfterTx(w *World, tx *TxCtx) {
 	}
 	if sr.Kind == "claim" {
 		if cr := claimResponse(w, tx.Resp); cr != nil {
-			if cr.TotalClaimed.Amount.BigInt().Cmp(sr.Released) != 0 || cr.RemainingDeposit.Amount.BigInt().Cmp(remainingOf(w, sr.Key)) != 0 {
+			if bigOf(cr.TotalClaimed.Amount).Cmp(sr.Released) != 0 || bigOf(cr.RemainingDeposit.Amount).Cmp(remainingOf(w, sr.Key)) != 0 {
 				w.Violate("C11", "C11/claim-response-wrong", "claim response total %s remaining %s; model released %s remaining %s", cr.TotalClaimed, cr.RemainingDeposit, sr.Released, remainingOf(w, sr.Key))
 			}
 		}
@@ -467,7 +467,7 @@ func (m *monC12) AfterTx(w *World, tx *TxCtx) {
 
 type c12Pre struct {
 	Funded, Affordable, SameDenom, ZeroRepresentable bool
-	Deposit                                            string
+	Deposit                                          string
 }
 
 func (m *monC12) BeforeTx(w *World, tx *TxCtx) {
